@@ -493,7 +493,13 @@ func (fr *Frame) enterLoop(lr *loopRun, stIn *State, reach Term) *State {
 		sortK := vc.entrySorts[k]
 		cur := vc.heapGet(st, k, sortK)
 		if lr.W.heapAll[k] || !sortK.IsArr() {
-			vc.heapSet(st, k, vc.declHeap(k, sortK))
+			nh := vc.declHeap(k, sortK)
+			if vc.mods != nil && sortK.IsArr() && !strings.HasPrefix(k, "G|") {
+				// every write in this function is checked against the modifies clause,
+				// so locations outside it keep their contents across the loop
+				vc.sc.Assume(vc.frameAssume(k, nh, cur), "loop: locations of "+k+" outside the modifies clause are unchanged (all writes are checked)")
+			}
+			vc.heapSet(st, k, nh)
 			continue
 		}
 		if lr.W.heapFresh[k] || len(lr.W.heapRoots[k]) > 0 {
@@ -857,15 +863,18 @@ func (fr *Frame) store(x *ssa.Store, st *State, reach Term) {
 			vc.unsupportedf("store of aggregate through interior pointer")
 		}
 		fr.checkNoLoc(v)
+		fr.checkWriteLV(p, fv.T, reach)
 		vc.storeFlat(st, p, fv)
 		fr.recordProv(st, p)
 	case *FV:
 		fr.nilCheck(p.L[0], reach, "store through nil pointer")
 		elem := x.Addr.Type().Underlying().(*types.Pointer).Elem()
 		if isAggregate(elem) {
+			fr.checkWriteObj(elem, p.L[0], reach)
 			vc.storeObj(st, p.L[0], v)
 		} else {
 			lv := &LV{Kind: LCell, Key: elemKey(elem), Ref: p.L[0]}
+			fr.checkWriteLV(lv, elem, reach)
 			vc.storeFlat(st, lv, v.(*FV))
 			fr.recordProv(st, lv)
 		}
@@ -1086,7 +1095,9 @@ func (fr *Frame) binop(x *ssa.BinOp, st *State, reach Term) {
 			}
 			// (x << c) | y with y < 2^c semantically: the disjointness becomes a
 			// side obligation and the result is the sum
-			if _, sg, _ := intInfo(xt); !sg && (x.Op == token.OR || x.Op == token.XOR) {
+			_, xIsConst := x.X.(*ssa.Const)
+			_, yIsConst := x.Y.(*ssa.Const)
+			if _, sg, _ := intInfo(xt); !sg && !xIsConst && !yIsConst && (x.Op == token.OR || x.Op == token.XOR) {
 				if lx > 0 && lx < 63 {
 					fr.oblige("bits", reach, app(SBool, "<", tb, intLit(new(bigInt).Lsh(bigOne, uint(lx)))), "operands of | occupy disjoint bits")
 					fr.vals[x] = scalar(x.Type(), vc.sc.Def("t", enc.add(ta, tb)))
@@ -1451,6 +1462,37 @@ func bitsOf(v ssa.Value, depth int) (hi, lo int) {
 		return u, exact
 	}
 	switch x := v.(type) {
+	case *ssa.UnOp:
+		// a load of a local: the union over everything stored to it
+		if a, ok := x.X.(*ssa.Alloc); ok && x.Op == token.MUL {
+			hi, lo, n := 0, 64, 0
+			for _, r := range *a.Referrers() {
+				switch u := r.(type) {
+				case *ssa.Store:
+					if u.Addr != ssa.Value(a) {
+						return def()
+					}
+					h, l := bitsOf(u.Val, depth+1)
+					if h > hi {
+						hi = h
+					}
+					if l < lo {
+						lo = l
+					}
+					n++
+				case *ssa.UnOp, *ssa.DebugRef:
+				default:
+					return def()
+				}
+			}
+			if n > 0 {
+				dh, _ := def()
+				if hi > dh {
+					hi = dh
+				}
+				return hi, lo
+			}
+		}
 	case *ssa.Const:
 		if u, ok := constOf(x); ok {
 			if u == 0 {
@@ -1640,5 +1682,56 @@ func rootTerm(t Term) Term {
 			}
 			s = rest[:j]
 		}
+	}
+}
+
+
+// checkWriteLV / checkWriteObj: write-permission obligations for a store of a
+// flat value to a heap location, or of an aggregate to an object.
+func (fr *Frame) checkWriteLV(lv *LV, t types.Type, reach Term) {
+	vc := fr.vc
+	if vc.mods == nil {
+		return
+	}
+	var prefix string
+	switch lv.Kind {
+	case LField:
+		prefix = "H|" + lv.Key + "|"
+	case LElem:
+		prefix = "M|" + lv.Key + "|"
+	case LCell:
+		prefix = "C|" + lv.Key + "|"
+	default:
+		return
+	}
+	ls := vc.enc.Leaves(t)
+	fr.checkWrite(prefix+ls[0].Name, lv.Ref, reach)
+}
+
+func (fr *Frame) checkWriteObj(t types.Type, ref Term, reach Term) {
+	vc := fr.vc
+	if vc.mods == nil {
+		return
+	}
+	switch u := t.Underlying().(type) {
+	case *types.Struct:
+		for i := 0; i < u.NumFields(); i++ {
+			ft := u.Field(i).Type()
+			if isAggregate(ft) {
+				fr.checkWriteObj(ft, vc.subRef(t, i, ref), reach)
+			} else {
+				fr.checkWrite(vc.fieldKey(t, i, vc.enc.Leaves(ft)[0].Name), ref, reach)
+			}
+		}
+	case *types.Array:
+		if isAggregate(u.Elem()) {
+			if u.Len() <= 16 {
+				for i := int64(0); i < u.Len(); i++ {
+					fr.checkWriteObj(u.Elem(), vc.elemRef(ref, vc.enc.idxLit(i)), reach)
+				}
+			}
+			return
+		}
+		fr.checkWrite(vc.memKey(u.Elem(), vc.enc.Leaves(u.Elem())[0].Name), ref, reach)
 	}
 }
